@@ -92,6 +92,16 @@ PossibleParse(pvs, ic, s) ==
        THEN VOk(s) ELSE VErr("InvalidValue")
 \* Error::empty_value is an InvalidValue error (error/mod.rs empty_value -> invalid_value)
 NonEmptyParse(s) == IF s = <<>> THEN VErr("InvalidValue") ELSE IF ~IsUtf8(s) THEN VErr("InvalidUtf8") ELSE VOk(s)
+\* EnumValueParser (value_parser.rs EnumValueParser::parse_ref): to_str, then the first variant whose
+\* possible value matches; the typed value is the variant, rendered here by its canonical name
+EnumParse(pvs, ic, s) ==
+  IF ~IsUtf8(s) THEN VErr("InvalidValue")    \* to_str() failing is reported through Error::invalid_value here
+  ELSE LET hit(i) == \E n \in {pvs[i].name} \cup pvs[i].aliases : IF ic THEN LowerAscii(n) = LowerAscii(s) ELSE n = s
+       IN IF \E i \in 1..Len(pvs) : hit(i)
+          THEN VOk(pvs[CHOOSE i \in 1..Len(pvs) : hit(i) /\ \A j \in 1..(i - 1) : ~hit(j)].name)
+          ELSE VErr("InvalidValue")
+\* PathBufValueParser::parse: the empty string is Error::empty_value, everything else is taken verbatim (no UTF-8 demand)
+PathBufParse(s) == IF s = <<>> THEN VErr("InvalidValue") ELSE VOk(s)
 StringParse(s) == IF ~IsUtf8(s) THEN VErr("InvalidUtf8") ELSE VOk(s)
 OsParse(s) == VOk(s)
 
